@@ -15,8 +15,9 @@ task's future.  For every file set, handler configuration, worker count and EVER
 
 Conformance (model <-> implementation): explored interleavings, one per class (order of appends per handler
 list + completion order), are forced on the real `ProcessPoolExecutor` + real `multiprocessing.Manager` through
-harness `GateHandler`s placed between the real handlers; the real outputs (including the order of blocks, which
-the model predicts) must equal the model's.
+harness `GateHandler`s placed between the real handlers; the real outputs must equal the model's - for the
+list-backed outputs (violations file, JUnit) including the order of blocks, which the model predicts; for the
+default handler (messages leave through the log queue at handle() time, not modelled) per file.
 """
 import collections
 import gc
@@ -39,8 +40,9 @@ META = dict(
     engine='sched',
     technique='stateless DFS over all interleavings of shared-list appends and task completions of a virtual pool/manager '
               'driving the unmodified lint_files; one interleaving per class forced on the real process pool + Manager',
-    level_text='every file set of <=3 (quick) / <=4 (thorough) files over {clean, one violation, several violations, unparsable} x '
-               'handler configurations x W in {1,2,3} x every interleaving of report appends and task completions',
+    level_text='file sets of <=3 (quick) / <=4 (thorough) files over {clean, one violation, several violations, unparsable} x '
+               'handler configurations {default, +violations file, +JUnit; thorough: all three} x W in {1,2,3} x every interleaving of '
+               'report appends and task completions (exact case list in coverage.rule)',
     level_note='virtual manager = model of multiprocessing.Manager (pickling at the boundary, shared lists), virtual pool = FIFO '
                'hand-out to W workers; between shared operations a task only touches its own copies',
 )
@@ -468,8 +470,13 @@ def real_forced(env, cfgname, W, trace, assigned_after, model, tag, timeout=45.0
     if r['count'] != model['count']:
         return f'real checked count {r["count"]}, model {model["count"]}'
     o = observe(r)
-    if o != model['obs']:
-        return f'real outputs (ordered blocks per handler) {o} differ from the model\'s {model["obs"]}'
+    # violations file / JUnit: the order of blocks is the order of the appends to that handler's list, which the model
+    # predicts.  Default handler: messages travel through the log queue at handle() time - not modelled - so only the
+    # per-file content is compared.
+    o['default'], want = per_file(o['default']), dict(model['obs'])
+    want['default'] = per_file(want['default'])
+    if o != want:
+        return f'real outputs (ordered blocks per handler list, default handler per file) {o} differ from the model\'s {want}'
     return None
 
 
@@ -552,29 +559,28 @@ def run(ctx):
     quick = ctx.quick
     cases = []       # (kinds, cfg, W, split_depth)
     for n in (1, 2, 3):
-        seqs = file_sets(n, sequences=(n <= 2 or not quick))
-        for kinds in seqs:
+        for kinds in file_sets(n, sequences=(n <= 2)):
             for cfg in ('D', 'DV', 'DJ'):
                 for W in (2, 3):
                     cases.append((kinds, cfg, W, 0))
     if not quick:
+        multisets3 = file_sets(3, sequences=False)
+        for kinds in file_sets(3, sequences=True):
+            if kinds not in multisets3:
+                cases.append((kinds, 'D', 2, 0))       # every *sequence* of 3 kinds with the default handler
+                cases.append((kinds, 'D', 3, 0))
         for kinds in file_sets(2, sequences=True):
-            cases.append((kinds, 'DJV', 2, 0))
-        for kinds in file_sets(3, sequences=False):
-            cases.append((kinds, 'DJV', 2, 0))
-        cases.append((['one', 'several', 'bad'], 'DJV', 3, 3))          # 34650 interleavings
+            cases.append((kinds, 'DJV', 2, 0))          # all three handlers
+        cases.append((['one', 'several', 'bad'], 'DJV', 2, 0))
         for kinds in file_sets(4, sequences=False):
-            cases.append((kinds, 'D', 2, 0))
-            cases.append((kinds, 'D', 3, 0))
-        for cfg in ('DV', 'DJ'):
-            cases.append((['clean', 'one', 'several', 'bad'], cfg, 2, 2))
+            cases.append((kinds, 'D', 2, 0))            # 4 files
+        cases.append((['clean', 'one', 'several', 'bad'], 'D', 3, 0))
     # conformance on the real pool: (file set, handler config, W) triples - kept small on purpose: every real-pool run
     # keeps a manager, W workers, a controller and the pool machinery alive
     conf = [(['several', 'bad'], 'D', 2), (['bad', 'one'], 'DV', 2), (['clean', 'several'], 'DJ', 2),
             (['one', 'several', 'bad'], 'D', 3)]
     if not quick:
-        conf += [(['one', 'several', 'bad'], 'D', 2), (['one', 'several', 'bad'], 'DV', 2), (['bad', 'one'], 'DJV', 2),
-                 (['several', 'bad'], 'DV', 2), (['clean', 'several'], 'D', 2)]
+        conf += [(['one', 'several', 'bad'], 'D', 2), (['one', 'several', 'bad'], 'DV', 2), (['bad', 'one'], 'DJV', 2)]
     ctx.require(all(any((c[0], c[1], c[2]) == k for c in cases) for k in conf), 'conformance case is not among the explored cases')
     # split the big searches into independent sub-trees
     split_items = [dict(uid=k, kinds=c[0], cfg=c[1], W=c[2], split=c[3], seed=ctx.seed, scratch=scratch)
@@ -666,10 +672,10 @@ def run(ctx):
                                    'list + completion order), forced through GateHandlers; ordered handler outputs and checked count '
                                    'must equal the model\'s prediction for that interleaving'),
         wall=dict(explore=round(t_explore, 1), real_pool=round(t_real, 1)),
-        rule='cases = file sets (every sequence of kinds for <=2 files, ' + ('every multiset' if quick else 'every sequence') +
-             ' for 3 files' + ('' if quick else ', every multiset of 4 files with the default handler, one all-kinds set of 4 with '
-                               'two handlers on 2 workers, every multiset of 3 (and sequence of 2) with all three handlers on 2 workers, '
-                               'one set of 3 with all three handlers on 3 workers') +
+        rule='cases = file sets (every sequence of kinds for <=2 files, every multiset' +
+             ' for 3 files' + ('' if quick else '; every sequence of 3 files with the default handler; every multiset of 4 files with '
+                               'the default handler on 2 workers and one all-kinds set of 4 on 3 workers; every sequence of 2 files and '
+                               'one set of 3 with all three handlers on 2 workers') +
              ') x handler configs (D default, V violations file, J JUnit) x W in {2,3}, each against its own W=1 run; per case a DFS over '
              'every interleaving of "append to handler list k" and "task complete" events; distinct_nontrivial = distinct '
              'event sequences summed over cases; states/transitions = distinct (main position, pool state) and (state, event) pairs',
